@@ -1839,21 +1839,13 @@ Lemma fr_fadd_incl cds x s : incl s cds -> In x cds -> incl (fadd x s) cds.
 Proof. intros Hs Hx y Hy. apply fr_fadd_inv in Hy. destruct Hy as [Hy| ->]; auto. Qed.
 
 (* ---------- the pair loop without the result monad *)
-Definition fr_upd (a b : fhit) (g : list fhit) : list fhit :=
-  if fmem a g || fmem b g then fadd b (fadd a g) else g.
 Definition fr_pstep (h : fhit) (groups : list (list fhit)) (o : fhit) : list (list fhit) :=
   if fov h o then
-    (if existsb (fun g => fmem h g || fmem o g) groups then map (fr_upd h o) groups
-     else map (fr_upd h o) groups ++ [[h; o]])
+    match unite_groups h o groups with
+    | Some groups' => groups'
+    | None => groups ++ [[h; o]]
+    end
   else groups.
-
-Lemma fr_update_groups_map a b : forall groups,
-  update_groups a b groups = (map (fr_upd a b) groups, negb (existsb (fun g => fmem a g || fmem b g) groups)).
-Proof.
-  induction groups as [|g gs IH]; cbn [update_groups map existsb]; [reflexivity|].
-  rewrite IH. assert (U : fr_upd a b g = if fmem a g || fmem b g then fadd b (fadd a g) else g) by reflexivity.
-  rewrite U. destruct (fmem a g || fmem b g); cbn; reflexivity.
-Qed.
 
 Lemma fr_pair_step_pure h o groups : f_hs h < f_he h -> f_hs o < f_he o ->
   pair_step h (Ok groups) o = Ok (fr_pstep h groups o).
@@ -1863,8 +1855,7 @@ Proof.
   replace (f_hs h <? f_he h) with true by lia. replace (f_hs o <? f_he o) with true by lia. cbn [negb bind].
   destruct (Z.max 0 (Z.min (f_he h) (f_he o) - Z.max (f_hs h) (f_hs o)) <=? 20) eqn:E1;
     destruct (20 <? Z.min (f_he h) (f_he o) - Z.max (f_hs h) (f_hs o)) eqn:E2; try lia; [reflexivity|].
-  rewrite fr_update_groups_map.
-  destruct (existsb (fun g => fmem h g || fmem o g) groups); reflexivity.
+  destruct (unite_groups h o groups); reflexivity.
 Qed.
 
 Definition fr_pos (cds : list fhit) : Prop := forall h, In h cds -> f_hs h < f_he h.
@@ -1892,10 +1883,101 @@ Qed.
 Lemma fr_overlapping_groups_pure cds : fr_pos cds -> overlapping_groups cds = Ok (fr_groups cds).
 Proof. intros Hp. unfold overlapping_groups, fr_groups. apply fr_outer_pure; auto. Qed.
 
+(* ---------- set.update *)
+Lemma fr_fupdate_old other : forall g y, In y g -> In y (fupdate g other).
+Proof.
+  unfold fupdate. induction other as [|x t IH]; intros g y H; cbn [fold_left]; [exact H|].
+  apply IH. apply fr_fadd_old. exact H.
+Qed.
+
+Lemma fr_fupdate_inv other : forall g y, In y (fupdate g other) -> In y g \/ In y other.
+Proof.
+  unfold fupdate. induction other as [|x t IH]; intros g y H; cbn [fold_left] in H; [left; exact H|].
+  apply IH in H. destruct H as [H|H]; [|right; right; exact H].
+  apply fr_fadd_inv in H. destruct H as [H| ->]; [left; exact H|right; left; reflexivity].
+Qed.
+
+Lemma fr_fupdate_new cds : NoDup (map f_id cds) -> forall other g y, incl other cds -> incl g cds ->
+  In y other -> In y (fupdate g other).
+Proof.
+  intros ND. unfold fupdate. induction other as [|x t IH]; intros g y Ho Hg Hy; [contradiction|]. cbn [fold_left].
+  assert (Hx : In x cds) by (apply Ho; left; reflexivity).
+  destruct Hy as [<-|Hy].
+  - apply (fr_fupdate_old t). apply (fr_fadd_self cds); auto.
+  - apply IH; auto; [intros z Hz; apply Ho; right; exact Hz|apply (fr_fadd_incl cds); auto].
+Qed.
+
+Lemma fr_fupdate_incl cds g other : incl g cds -> incl other cds -> incl (fupdate g other) cds.
+Proof. intros Hg Ho y Hy. apply fr_fupdate_inv in Hy. destruct Hy as [Hy|Hy]; auto. Qed.
+
+(* linked[0].update(pairing, *linked[1:]) *)
+Lemma fr_funion_old qs : forall s y, In y s -> In y (fold_left fupdate qs s).
+Proof.
+  induction qs as [|q t IH]; intros s y H; cbn [fold_left]; [exact H|]. apply IH. apply fr_fupdate_old. exact H.
+Qed.
+
+Lemma fr_funion_inv qs : forall s y, In y (fold_left fupdate qs s) -> In y s \/ exists q, In q qs /\ In y q.
+Proof.
+  induction qs as [|q t IH]; intros s y H; cbn [fold_left] in H; [left; exact H|].
+  apply IH in H. destruct H as [H|[q' [Hq' Hy]]]; [|right; exists q'; split; [right; exact Hq'|exact Hy]].
+  apply fr_fupdate_inv in H. destruct H as [H|H]; [left; exact H|right; exists q; split; [left; reflexivity|exact H]].
+Qed.
+
+Lemma fr_funion_new cds : NoDup (map f_id cds) -> forall qs s y q, (forall q', In q' qs -> incl q' cds) -> incl s cds ->
+  In q qs -> In y q -> In y (fold_left fupdate qs s).
+Proof.
+  intros ND. induction qs as [|q0 t IH]; intros s y q Hqs Hs Hq Hy; [contradiction|]. cbn [fold_left].
+  assert (H0 : incl q0 cds) by (apply Hqs; left; reflexivity).
+  destruct Hq as [->|Hq].
+  - apply fr_funion_old. apply (fr_fupdate_new cds ND); auto.
+  - apply (IH _ y q); auto; [intros q' Hq'; apply Hqs; right; exact Hq'|apply fr_fupdate_incl; auto].
+Qed.
+
+(* ---------- what unite_groups returns: one united group U (the first linked group, the pair and
+   every other linked group) in place of all linked groups, the other groups unchanged *)
+Lemma fr_unite_none a b : forall gs, unite_groups a b gs = None -> forall g, In g gs -> touches a b g = false.
+Proof.
+  induction gs as [|g0 gs IH]; cbn [unite_groups]; intros H g Hg; [contradiction|].
+  destruct (touches a b g0) eqn:T; [discriminate|].
+  destruct (unite_groups a b gs) eqn:E; [discriminate|].
+  destruct Hg as [<-|Hg]; [exact T|apply IH; auto].
+Qed.
+
+Lemma fr_unite_some a b : forall gs gs', unite_groups a b gs = Some gs' ->
+  exists g qs U, In g gs /\ touches a b g = true /\ (forall q, In q qs -> In q gs /\ touches a b q = true) /\
+    U = fold_left fupdate qs (fadd b (fadd a g)) /\ In U gs' /\
+    (forall g', In g' gs' -> g' = U \/ (In g' gs /\ touches a b g' = false)) /\
+    (forall g', In g' gs -> touches a b g' = false -> In g' gs') /\
+    (forall g', In g' gs -> touches a b g' = true -> g' = g \/ In g' qs).
+Proof.
+  induction gs as [|g0 gs IH]; cbn [unite_groups]; intros gs' H; [discriminate|].
+  destruct (touches a b g0) eqn:T.
+  - injection H as <-. exists g0, (filter (touches a b) gs), (fold_left fupdate (filter (touches a b) gs) (fadd b (fadd a g0))).
+    split; [left; reflexivity|]. split; [exact T|]. split.
+    { intros q Hq. apply filter_In in Hq. destruct Hq as [Hq Tq]. split; [right; exact Hq|exact Tq]. }
+    split; [reflexivity|]. split; [left; reflexivity|]. split; [|split].
+    + intros g' [<-|Hg']; [left; reflexivity|]. apply filter_In in Hg'. destruct Hg' as [Hg' Tg'].
+      right. split; [right; exact Hg'|apply negb_true_iff; exact Tg'].
+    + intros g' [<-|Hg'] Tg'; [congruence|]. right. apply filter_In. split; [exact Hg'|rewrite Tg'; reflexivity].
+    + intros g' [<-|Hg'] Tg'; [left; reflexivity|]. right. apply filter_In. split; assumption.
+  - destruct (unite_groups a b gs) as [l|] eqn:E; [|discriminate]. injection H as <-.
+    destruct (IH l eq_refl) as [g [qs [U [H1 [H2 [H3 [H4 [H5 [H6 [H7 H8]]]]]]]]]].
+    exists g, qs, U. split; [right; exact H1|]. split; [exact H2|]. split.
+    { intros q Hq. destruct (H3 q Hq) as [Q1 Q2]. split; [right; exact Q1|exact Q2]. }
+    split; [exact H4|]. split; [right; exact H5|]. split; [|split].
+    + intros g' [<-|Hg']; [right; split; [left; reflexivity|exact T]|].
+      destruct (H6 g' Hg') as [E'|[I' T']]; [left; exact E'|right; split; [right; exact I'|exact T']].
+    + intros g' [<-|Hg'] Tg'; [left; reflexivity|right; apply H7; assumption].
+    + intros g' [<-|Hg'] Tg'; [congruence|apply H8; assumption].
+Qed.
+
 (* ---------- invariants of the group building *)
 Definition fr_gconn (cds g : list fhit) : Prop := forall x y, In x g -> In y g -> fconn cds x y.
 Definition fr_inv (cds : list fhit) (gs : list (list fhit)) : Prop :=
   forall g, In g gs -> incl g cds /\ fr_gconn cds g /\ g <> [].
+(* two groups of the list are the same group or share no hit *)
+Definition fr_disj (g1 g2 : list fhit) : Prop := forall x, In x g1 -> In x g2 -> False.
+Definition fr_pd (gs : list (list fhit)) : Prop := forall g1 g2, In g1 gs -> In g2 gs -> g1 = g2 \/ fr_disj g1 g2.
 Definition fr_gle (gs gs' : list (list fhit)) : Prop := forall g, In g gs -> exists g', In g' gs' /\ incl g g'.
 Definition fr_covers (gs : list (list fhit)) (h o : fhit) : Prop := exists g, In g gs /\ In h g /\ In o g.
 
@@ -1914,70 +1996,122 @@ Proof.
   intros H x y Hx Hy. apply (fr_fconn_trans cds x h y); [apply H; exact Hx|apply fr_fconn_sym, H; exact Hy].
 Qed.
 
-Lemma fr_upd_incl_l a b g : incl g (fr_upd a b g).
+Lemma fr_disj_sym g1 g2 : fr_disj g1 g2 -> fr_disj g2 g1.
+Proof. intros H x H2 H1. exact (H x H1 H2). Qed.
+
+Lemma fr_touches_In cds a b g : NoDup (map f_id cds) -> incl g cds -> In a cds -> In b cds ->
+  touches a b g = true -> In a g \/ In b g.
 Proof.
-  unfold fr_upd. destruct (fmem a g || fmem b g); [|apply incl_refl].
-  intros y Hy. apply fr_fadd_old, fr_fadd_old. exact Hy.
+  intros ND Hg Ha Hb T. unfold touches in T. apply orb_true_iff in T.
+  destruct T as [T|T]; [left|right]; apply (fr_fmem_In cds); auto.
 Qed.
 
-Lemma fr_pstep_spec cds h o gs : NoDup (map f_id cds) -> In h cds -> In o cds -> fr_inv cds gs ->
-  fr_inv cds (fr_pstep h gs o) /\ fr_gle gs (fr_pstep h gs o) /\ (fov h o = true -> fr_covers (fr_pstep h gs o) h o).
+Lemma fr_pstep_spec cds h o gs : NoDup (map f_id cds) -> In h cds -> In o cds -> fr_inv cds gs -> fr_pd gs ->
+  fr_inv cds (fr_pstep h gs o) /\ fr_pd (fr_pstep h gs o) /\ fr_gle gs (fr_pstep h gs o) /\
+  (fov h o = true -> fr_covers (fr_pstep h gs o) h o).
 Proof.
-  intros ND Hh Ho Inv. unfold fr_pstep. destruct (fov h o) eqn:Ef.
-  2:{ split; [exact Inv|]. split; [apply fr_gle_refl|discriminate]. }
+  intros ND Hh Ho Inv Pd. unfold fr_pstep. destruct (fov h o) eqn:Ef.
+  2:{ split; [exact Inv|]. split; [exact Pd|]. split; [apply fr_gle_refl|discriminate]. }
   assert (Hoh : fconn cds o h) by (apply fr_fconn_edge; auto; rewrite fr_fov_sym; exact Ef).
-  assert (InvU : fr_inv cds (map (fr_upd h o) gs)).
-  { intros g' Hg'. apply in_map_iff in Hg'. destruct Hg' as [g [<- Hg]]. destruct (Inv g Hg) as [I1 [I2 I3]].
-    unfold fr_upd. destruct (fmem h g || fmem o g) eqn:Et; [|auto].
-    split; [apply (fr_fadd_incl cds); auto; apply (fr_fadd_incl cds); auto|]. split.
-    - apply (fr_star cds _ h). intros z Hz.
-      apply fr_fadd_inv in Hz. destruct Hz as [Hz| ->]; [|exact Hoh].
-      apply fr_fadd_inv in Hz. destruct Hz as [Hz| ->]; [|apply fconn_refl; exact Hh].
-      apply orb_true_iff in Et. destruct Et as [Et|Et].
-      + apply I2; auto. apply (fr_fmem_In cds); auto.
-      + apply (fr_fconn_trans cds z o h); [|exact Hoh]. apply I2; auto. apply (fr_fmem_In cds); auto.
-    - intros E. destruct g as [|g0 gt]; [apply I3; reflexivity|].
-      assert (In g0 (fadd o (fadd h (g0 :: gt)))) by (apply fr_fadd_old, fr_fadd_old; left; reflexivity).
-      rewrite E in H. contradiction. }
-  assert (GleU : fr_gle gs (map (fr_upd h o) gs)).
-  { intros g Hg. exists (fr_upd h o g). split; [apply in_map; exact Hg|apply fr_upd_incl_l]. }
-  destruct (existsb (fun g => fmem h g || fmem o g) gs) eqn:Ex.
-  - split; [exact InvU|]. split; [exact GleU|]. intros _.
-    apply existsb_exists in Ex. destruct Ex as [g [Hg Et]]. destruct (Inv g Hg) as [I1 _].
-    exists (fr_upd h o g). split; [apply in_map; exact Hg|]. unfold fr_upd. rewrite Et. split.
-    + apply fr_fadd_old. apply (fr_fadd_self cds); auto.
-    + apply (fr_fadd_self cds); auto. apply (fr_fadd_incl cds); auto.
-  - split; [|split].
-    + intros g Hg. apply in_app_or in Hg. destruct Hg as [Hg|[<-|[]]]; [apply InvU; exact Hg|].
+  (* every member of a linked group is chained to h *)
+  assert (Link : forall t, In t gs -> touches h o t = true -> forall z, In z t -> fconn cds z h).
+  { intros t Ht Tt z Hz. destruct (Inv t Ht) as [I1 [I2 _]].
+    destruct (fr_touches_In cds h o t ND I1 Hh Ho Tt) as [Hin|Hin].
+    - apply I2; auto.
+    - apply (fr_fconn_trans cds z o h); [apply I2; auto|exact Hoh]. }
+  destruct (unite_groups h o gs) as [gs'|] eqn:EU.
+  - destruct (fr_unite_some h o gs gs' EU) as [g [qs [U [Hg [Tg [Hqs [EqU [HU [Hnew [Hkeep Hlinked]]]]]]]]]].
+    destruct (Inv g Hg) as [G1 [G2 G3]].
+    assert (Hbase : incl (fadd o (fadd h g)) cds) by (apply (fr_fadd_incl cds); auto; apply (fr_fadd_incl cds); auto).
+    assert (Hqs_incl : forall q, In q qs -> incl q cds).
+    { intros q Hq. destruct (Hqs q Hq) as [Q1 _]. apply (Inv q Q1). }
+    assert (Uinv : forall x, In x U -> In x g \/ x = h \/ x = o \/ exists q, In q qs /\ In x q).
+    { intros x Hx. rewrite EqU in Hx. apply fr_funion_inv in Hx. destruct Hx as [Hx|Hx]; [|auto].
+      apply fr_fadd_inv in Hx. destruct Hx as [Hx| ->]; [|auto].
+      apply fr_fadd_inv in Hx. destruct Hx as [Hx| ->]; auto. }
+    assert (Ug : incl g U).
+    { intros x Hx. rewrite EqU. apply fr_funion_old. apply fr_fadd_old, fr_fadd_old. exact Hx. }
+    assert (Uh : In h U).
+    { rewrite EqU. apply fr_funion_old. apply fr_fadd_old. apply (fr_fadd_self cds); auto. }
+    assert (Uo : In o U).
+    { rewrite EqU. apply fr_funion_old. apply (fr_fadd_self cds); auto. apply (fr_fadd_incl cds); auto. }
+    assert (Uq : forall q, In q qs -> incl q U).
+    { intros q Hq x Hx. rewrite EqU. apply (fr_funion_new cds ND qs _ x q); auto. }
+    assert (Ucds : incl U cds).
+    { intros x Hx. destruct (Uinv x Hx) as [H1|[->|[->|[q [Hq H1]]]]]; auto. apply (Hqs_incl q Hq). exact H1. }
+    assert (Uconn : forall z, In z U -> fconn cds z h).
+    { intros z Hz. destruct (Uinv z Hz) as [H1|[->|[->|[q [Hq H1]]]]].
+      - apply (Link g Hg Tg). exact H1.
+      - apply fconn_refl. exact Hh.
+      - exact Hoh.
+      - destruct (Hqs q Hq) as [Q1 Q2]. apply (Link q Q1 Q2). exact H1. }
+    (* U shares no hit with a group the pair does not touch *)
+    assert (Udisj : forall p, In p gs -> touches h o p = false -> fr_disj U p).
+    { intros p Hp Tp x Hx Hxp. unfold touches in Tp. apply orb_false_iff in Tp. destruct Tp as [Tp1 Tp2].
+      assert (Sep : forall t, In t gs -> touches h o t = true -> In x t -> False).
+      { intros t Ht Tt Hxt. destruct (Pd t p Ht Hp) as [->|D]; [|exact (D x Hxt Hxp)].
+        unfold touches in Tt. rewrite Tp1, Tp2 in Tt. discriminate. }
+      destruct (Uinv x Hx) as [H1|[->|[->|[q [Hq H1]]]]].
+      - exact (Sep g Hg Tg H1).
+      - rewrite (fr_In_fmem h p Hxp) in Tp1. discriminate.
+      - rewrite (fr_In_fmem o p Hxp) in Tp2. discriminate.
+      - destruct (Hqs q Hq) as [Q1 Q2]. exact (Sep q Q1 Q2 H1). }
+    split; [|split; [|split]].
+    + intros g' Hg'. destruct (Hnew g' Hg') as [->|[Hin _]]; [|apply Inv; exact Hin].
+      split; [exact Ucds|]. split; [apply (fr_star cds U h); exact Uconn|]. intros E. rewrite E in Uh. contradiction.
+    + intros g1 g2 H1 H2. destruct (Hnew g1 H1) as [->|[I1 T1]], (Hnew g2 H2) as [->|[I2 T2]].
+      * left. reflexivity.
+      * right. apply Udisj; auto.
+      * right. apply fr_disj_sym. apply Udisj; auto.
+      * apply Pd; auto.
+    + intros g0 Hg0. destruct (touches h o g0) eqn:T0.
+      * exists U. split; [exact HU|]. destruct (Hlinked g0 Hg0 T0) as [->|Hq]; [exact Ug|apply Uq; exact Hq].
+      * exists g0. split; [apply Hkeep; auto|apply incl_refl].
+    + intros _. exists U. auto.
+  - pose proof (fr_unite_none h o gs EU) as Hnone.
+    assert (Hpair : forall p, In p gs -> fr_disj [h; o] p).
+    { intros p Hp x Hx Hxp. specialize (Hnone p Hp). unfold touches in Hnone. apply orb_false_iff in Hnone.
+      destruct Hnone as [T1 T2]. destruct Hx as [<-|[<-|[]]].
+      - rewrite (fr_In_fmem h p Hxp) in T1. discriminate.
+      - rewrite (fr_In_fmem o p Hxp) in T2. discriminate. }
+    split; [|split; [|split]].
+    + intros g Hg. apply in_app_or in Hg. destruct Hg as [Hg|[<-|[]]]; [apply Inv; exact Hg|].
       split; [intros z [<-|[<-|[]]]; auto|]. split; [|discriminate].
       apply (fr_star cds _ h). intros z [<-|[<-|[]]]; [apply fconn_refl; exact Hh|exact Hoh].
-    + intros g Hg. destruct (GleU g Hg) as [g' [Hg' I]]. exists g'. split; [apply in_or_app; left; exact Hg'|exact I].
+    + intros g1 g2 H1 H2. apply in_app_or in H1. apply in_app_or in H2.
+      destruct H1 as [H1|[<-|[]]], H2 as [H2|[<-|[]]].
+      * apply Pd; auto.
+      * right. apply fr_disj_sym. apply Hpair. exact H1.
+      * right. apply Hpair. exact H2.
+      * left. reflexivity.
+    + intros g Hg. exists g. split; [apply in_or_app; left; exact Hg|apply incl_refl].
     + intros _. exists [h; o]. split; [apply in_or_app; right; left; reflexivity|]. split; [left|right; left]; reflexivity.
 Qed.
 
-Lemma fr_inner_spec cds h : NoDup (map f_id cds) -> In h cds -> forall os gs, incl os cds -> fr_inv cds gs ->
+Lemma fr_inner_spec cds h : NoDup (map f_id cds) -> In h cds -> forall os gs, incl os cds -> fr_inv cds gs -> fr_pd gs ->
   let gs' := fold_left (fr_pstep h) os gs in
-  fr_inv cds gs' /\ fr_gle gs gs' /\ forall o, In o os -> fov h o = true -> fr_covers gs' h o.
+  fr_inv cds gs' /\ fr_pd gs' /\ fr_gle gs gs' /\ forall o, In o os -> fov h o = true -> fr_covers gs' h o.
 Proof.
-  intros ND Hh. induction os as [|o os IH]; intros gs Hos Inv; cbn [fold_left].
-  - split; [exact Inv|]. split; [apply fr_gle_refl|intros o []].
+  intros ND Hh. induction os as [|o os IH]; intros gs Hos Inv Pd; cbn [fold_left].
+  - split; [exact Inv|]. split; [exact Pd|]. split; [apply fr_gle_refl|intros o []].
   - assert (Ho : In o cds) by (apply Hos; left; reflexivity).
-    destruct (fr_pstep_spec cds h o gs ND Hh Ho Inv) as [I1 [G1 C1]].
-    destruct (IH (fr_pstep h gs o) (fun x Hx => Hos x (or_intror Hx)) I1) as [I2 [G2 C2]].
-    split; [exact I2|]. split; [eapply fr_gle_trans; eauto|].
+    destruct (fr_pstep_spec cds h o gs ND Hh Ho Inv Pd) as [I1 [P1 [G1 C1]]].
+    destruct (IH (fr_pstep h gs o) (fun x Hx => Hos x (or_intror Hx)) I1 P1) as [I2 [P2 [G2 C2]]].
+    split; [exact I2|]. split; [exact P2|]. split; [eapply fr_gle_trans; eauto|].
     intros o' [<-|Ho'] Hf; [|apply C2; auto]. apply (fr_covers_gle _ _ _ _ G2). apply C1. exact Hf.
 Qed.
 
-Lemma fr_outer_spec cds : NoDup (map f_id cds) -> forall hs gs, incl hs cds -> fr_inv cds gs ->
+Lemma fr_outer_spec cds : NoDup (map f_id cds) -> forall hs gs, incl hs cds -> fr_inv cds gs -> fr_pd gs ->
   let gs' := fold_left (fun gs h => fold_left (fr_pstep h) cds gs) hs gs in
-  fr_inv cds gs' /\ fr_gle gs gs' /\ forall h o, In h hs -> In o cds -> fov h o = true -> fr_covers gs' h o.
+  fr_inv cds gs' /\ fr_pd gs' /\ fr_gle gs gs' /\
+  forall h o, In h hs -> In o cds -> fov h o = true -> fr_covers gs' h o.
 Proof.
-  intros ND. induction hs as [|h hs IH]; intros gs Hhs Inv; cbn [fold_left].
-  - split; [exact Inv|]. split; [apply fr_gle_refl|intros h o []].
+  intros ND. induction hs as [|h hs IH]; intros gs Hhs Inv Pd; cbn [fold_left].
+  - split; [exact Inv|]. split; [exact Pd|]. split; [apply fr_gle_refl|intros h o []].
   - assert (Hh : In h cds) by (apply Hhs; left; reflexivity).
-    destruct (fr_inner_spec cds h ND Hh cds gs (incl_refl _) Inv) as [I1 [G1 C1]].
-    destruct (IH _ (fun x Hx => Hhs x (or_intror Hx)) I1) as [I2 [G2 C2]].
-    split; [exact I2|]. split; [eapply fr_gle_trans; eauto|].
+    destruct (fr_inner_spec cds h ND Hh cds gs (incl_refl _) Inv Pd) as [I1 [P1 [G1 C1]]].
+    destruct (IH _ (fun x Hx => Hhs x (or_intror Hx)) I1 P1) as [I2 [P2 [G2 C2]]].
+    split; [exact I2|]. split; [exact P2|]. split; [eapply fr_gle_trans; eauto|].
     intros h' o [<-|Hh'] Ho Hf; [|apply C2; auto]. apply (fr_covers_gle _ _ _ _ G2). apply C1; auto.
 Qed.
 
@@ -1986,30 +2120,25 @@ Qed.
 Lemma fr_groups_spec cds : NoDup (map f_id cds) ->
   fr_inv cds (fr_groups cds) /\ forall h o, In h cds -> In o cds -> fov h o = true -> fr_covers (fr_groups cds) h o.
 Proof.
-  intros ND. destruct (fr_outer_spec cds ND cds [] (incl_refl _)) as [I [_ C]]; [intros g []|].
+  intros ND. destruct (fr_outer_spec cds ND cds [] (incl_refl _)) as [I [_ [_ C]]]; [intros g []|intros g1 g2 []|].
   split; [exact I|exact C].
 Qed.
 
-(* ---------- a closed group is a connected component *)
-Lemma fr_fsubset_In cds g g' : NoDup (map f_id cds) -> incl g cds -> incl g' cds ->
-  fsubset g g' = true -> incl g g'.
+(* ... and (since the repair of FC13a) no hit lies in two of them *)
+Lemma fr_groups_disjoint cds : NoDup (map f_id cds) -> fr_pd (fr_groups cds).
 Proof.
-  intros ND Hg Hg' H x Hx. unfold fsubset in H. rewrite forallb_forall in H.
-  apply (fr_fmem_In cds); auto.
+  intros ND. destruct (fr_outer_spec cds ND cds [] (incl_refl _)) as [_ [P _]]; [intros g []|intros g1 g2 []|exact P].
 Qed.
 
-Lemma fr_closed_component cds gs g h : NoDup (map f_id cds) -> fr_inv cds gs ->
+(* ---------- every group is a connected component *)
+Lemma fr_group_component cds gs g h : NoDup (map f_id cds) -> fr_inv cds gs -> fr_pd gs ->
   (forall a b, In a cds -> In b cds -> fov a b = true -> fr_covers gs a b) ->
-  In g gs -> fclosed gs g = true -> In h g -> forall x, In x g <-> fconn cds h x.
+  In g gs -> In h g -> forall x, In x g <-> fconn cds h x.
 Proof.
-  intros ND Inv Cov Hg Hc Hh x. destruct (Inv g Hg) as [I1 [I2 _]]. split; [intros Hx; apply I2; auto|].
+  intros ND Inv Pd Cov Hg Hh x. destruct (Inv g Hg) as [I1 [I2 _]]. split; [intros Hx; apply I2; auto|].
   induction 1 as [h H|a b c H IH Hc' Hf]; [exact Hh|].
   specialize (IH Hh). destruct (Cov b c (I1 b IH) Hc' Hf) as [g2 [Hg2 [Hb2 Hc2]]].
-  unfold fclosed in Hc. rewrite forallb_forall in Hc. specialize (Hc g2 Hg2).
-  assert (M : fmeets g2 g = true).
-  { unfold fmeets. apply existsb_exists. exists b. split; [exact Hb2|apply fr_In_fmem; exact IH]. }
-  rewrite M in Hc. cbn in Hc. destruct (Inv g2 Hg2) as [J1 _].
-  apply (fr_fsubset_In cds g2 g ND J1 I1 Hc). exact Hc2.
+  destruct (Pd g2 g Hg2 Hg) as [<-|D]; [exact Hc2|]. exfalso. exact (D b Hb2 IH).
 Qed.
 
 (* ---------- best of a group *)
@@ -2217,7 +2346,7 @@ Proof.
   subst x y. unfold fov in Ef. rewrite Z.eqb_refl in Ef. discriminate.
 Qed.
 
-(* ---------- the best hit of every connected component, under the guard *)
+(* ---------- the best hit of every connected component *)
 Lemma fr_key_inj (f : fhit -> Z) cds : NoDup (map f cds) -> forall x y, In x cds -> In y cds -> f x = f y -> x = y.
 Proof.
   induction cds as [|a t IH]; cbn; intros ND x y Hx Hy E; [contradiction|].
@@ -2240,27 +2369,24 @@ Proof.
   specialize (Hmax h Hhg). apply Hne. apply (fr_key_inj f_sc mine Hd); auto. lia.
 Qed.
 
-Lemma fr_keep_guarded mine h : fwf mine = true -> distinct_scores mine = true ->
-  groups_guard (fr_groups mine) = true -> In h mine -> fr_keep mine h = comp_best mine h.
+(* the survivors are exactly the best hits of the connected components *)
+Lemma fr_keep_spec mine h : fwf mine = true -> distinct_scores mine = true ->
+  In h mine -> fr_keep mine h = comp_best mine h.
 Proof.
-  intros Hwf Hd Hg Hh. destruct (comp_best mine h) eqn:Ec; [apply fr_best_survives; auto|].
+  intros Hwf Hd Hh. destruct (comp_best mine h) eqn:Ec; [apply fr_best_survives; auto|].
   destruct (fr_keep mine h) eqn:Ek; [|reflexivity]. exfalso.
   destruct (fr_fwf_spec mine Hwf) as [Hp ND].
-  destruct (fr_groups_spec mine ND) as [Inv Cov].
+  destruct (fr_groups_spec mine ND) as [Inv Cov]. pose proof (fr_groups_disjoint mine ND) as Pd.
   assert (C : comp_best mine h = true); [|congruence].
   apply (comp_best_spec mine h ND Hh). intros o Ho.
   unfold fr_keep in Ek. apply negb_true_iff in Ek.
   destruct (existsb (fun g => fmem h g) (fr_groups mine)) eqn:Ex.
-  - apply existsb_exists in Ex. destruct Ex as [g [Hgin Hm]]. destruct (Inv g Hgin) as [I1 _].
+  - apply existsb_exists in Ex. destruct Ex as [g [Hgin Hm]]. destruct (Inv g Hgin) as [I1 [_ I3]].
     assert (Hhg : In h g) by (apply (fr_fmem_In mine); auto).
-    unfold groups_guard in Hg. rewrite forallb_forall in Hg. specialize (Hg g Hgin).
-    apply existsb_exists in Hg. destruct Hg as [g' [Hg' H2]]. apply andb_true_iff in H2. destruct H2 as [Hs Hcl].
-    destruct (Inv g' Hg') as [J1 [_ J3]].
-    assert (Hhg' : In h g') by (apply (fr_fsubset_In mine g g' ND I1 J1 Hs); exact Hhg).
-    assert (Hog' : In o g') by (apply (fr_closed_component mine (fr_groups mine) g' h ND Inv Cov Hg' Hcl Hhg'); exact Ho).
-    destruct (fr_best_of_some g' J3) as [b Eb]. destruct (fr_best_of_spec g' b Eb) as [_ Hmax].
-    destruct (fhit_eq_dec_aux b h) as [->|Hne]; [apply Hmax; exact Hog'|]. exfalso.
-    assert (fr_bad (fr_groups mine) h = true) by (apply (fr_bad_iff mine); auto; exists g', b; auto). congruence.
+    assert (Hog : In o g) by (apply (fr_group_component mine (fr_groups mine) g h ND Inv Pd Cov Hgin Hhg); exact Ho).
+    destruct (fr_best_of_some g I3) as [b Eb]. destruct (fr_best_of_spec g b Eb) as [_ Hmax].
+    destruct (fhit_eq_dec_aux b h) as [->|Hne]; [apply Hmax; exact Hog|]. exfalso.
+    assert (fr_bad (fr_groups mine) h = true) by (apply (fr_bad_iff mine); auto; exists g, b; auto). congruence.
   - destruct (fr_fconn_first_edge mine h o Ho) as [->|[b [Hb Hf]]]; [lia|]. exfalso.
     destruct (Cov h b Hh Hb Hf) as [g [Hgin [Hhg _]]].
     assert (existsb (fun g => fmem h g) (fr_groups mine) = true); [|congruence].
@@ -2287,36 +2413,35 @@ Proof.
     + exists a. split; [left; reflexivity|]. intros x [<-|Hx]; [lia|]. specialize (Hmax x Hx). lia.
 Qed.
 
-(* (a)+(b) under the guard: the step is exactly what the property demands (fr_step_spec) *)
-Lemma fr_cds_meets_spec eqg results removed mine r' m' app grd :
-  fr_step_spec eqg results mine = (r', m', app, grd) -> app = true -> grd = true ->
+(* (a)+(b): the step is exactly what the property demands (fr_step_spec) *)
+Lemma fr_cds_meets_spec eqg results removed mine r' m' app :
+  fr_step_spec eqg results mine = (r', m', app) -> app = true ->
   fr_J (results, mine, removed) ->
   exists removed', fr_cds eqg (Ok (results, removed)) mine = (Ok (r', removed'), m').
 Proof.
   unfold fr_step_spec. destruct (competing eqg mine) eqn:Ec.
-  2:{ intros E _ _ _. inversion E; subst. exists removed. apply fr_cds_not_competing. exact Ec. }
-  intros E Happ Hgrd J. inversion E as [[E1 E2 E3 E4]]. clear E. subst grd. rewrite Happ in E3.
+  2:{ intros E _ _. inversion E; subst. exists removed. apply fr_cds_not_competing. exact Ec. }
+  intros E Happ J. inversion E as [[E1 E2 E3]]. clear E. rewrite Happ in E3.
   apply andb_true_iff in E3. destruct E3 as [Hwf Hd].
   destruct (fr_fwf_spec mine Hwf) as [Hp ND].
-  rewrite (fr_overlapping_groups_pure mine Hp) in E4.
   destruct (fr_groups_spec mine ND) as [Inv Cov].
   destruct (fr_cds_survivors eqg results removed mine Hwf Ec J) as [rem' Ecds].
   assert (EM : filter (fr_keep mine) mine = filter (comp_best mine) mine).
-  { apply filter_ext_in. intros h Hh. apply fr_keep_guarded; auto. }
+  { apply filter_ext_in. intros h Hh. apply fr_keep_spec; auto. }
   assert (ER : filter (fr_keep mine) results
                = filter (fun r => negb (fmem r (filter (fun h => negb (comp_best mine h)) mine))) results).
   { apply filter_ext. intros r. unfold fr_keep. f_equal.
     destruct (fmem r (filter (fun h => negb (comp_best mine h)) mine)) eqn:Ef.
     - apply fr_fmem_iff in Ef. destruct Ef as [h [Hh Eid]]. apply filter_In in Hh. destruct Hh as [Hh Hc].
       rewrite (fr_bad_id _ r h Eid). apply negb_true_iff in Hc.
-      pose proof (fr_keep_guarded mine h Hwf Hd E4 Hh) as K. rewrite Hc in K. unfold fr_keep in K.
+      pose proof (fr_keep_spec mine h Hwf Hd Hh) as K. rewrite Hc in K. unfold fr_keep in K.
       apply negb_false_iff in K. exact K.
     - destruct (fr_bad (fr_groups mine) r) eqn:Eb; [|reflexivity]. exfalso.
       destruct (fr_bad_member mine _ r Inv Eb) as [h [Hh Eid]].
       assert (fmem r (filter (fun h => negb (comp_best mine h)) mine) = true); [|congruence].
       apply fr_fmem_iff. exists h. split; [|symmetry; exact Eid]. apply filter_In. split; [exact Hh|].
       rewrite (fr_bad_id _ r h (eq_sym Eid)) in Eb.
-      pose proof (fr_keep_guarded mine h Hwf Hd E4 Hh) as K. unfold fr_keep in K. rewrite Eb in K. cbn in K.
+      pose proof (fr_keep_spec mine h Hwf Hd Hh) as K. unfold fr_keep in K. rewrite Eb in K. cbn in K.
       rewrite <- K. reflexivity. }
   rewrite EM, ER in Ecds. clear E1 E2.
   destruct (filter (comp_best mine) mine) as [|m0 mt] eqn:EF; [|exists rem'; exact Ecds]. exfalso.
@@ -2327,25 +2452,25 @@ Proof.
   apply Hmax. apply (fconn_In _ _ _ Ho).
 Qed.
 
-(* (c) under the guard the survivors do not depend on the order of the gene's hit list *)
-Lemma fr_order_independent_guarded mine mine2 :
+(* (c) the survivors do not depend on the order of the gene's hit list *)
+Lemma fr_order_independent mine mine2 :
   Permutation mine mine2 -> fwf mine = true -> fwf mine2 = true ->
   distinct_scores mine = true -> distinct_scores mine2 = true ->
-  groups_guard (fr_groups mine) = true -> groups_guard (fr_groups mine2) = true ->
   forall h, In h (filter (fr_keep mine) mine) <-> In h (filter (fr_keep mine2) mine2).
 Proof.
-  intros P W1 W2 D1 D2 G1 G2 h. destruct (fr_fwf_spec mine W1) as [_ ND]. rewrite !filter_In.
+  intros P W1 W2 D1 D2 h. destruct (fr_fwf_spec mine W1) as [_ ND]. rewrite !filter_In.
   split; intros [Hh K].
   - assert (Hh2 : In h mine2) by (apply (Permutation_in _ P); exact Hh). split; [exact Hh2|].
-    rewrite (fr_keep_guarded mine2 h W2 D2 G2 Hh2). rewrite <- (comp_best_perm mine mine2 h P ND Hh).
-    rewrite <- (fr_keep_guarded mine h W1 D1 G1 Hh). exact K.
+    rewrite (fr_keep_spec mine2 h W2 D2 Hh2). rewrite <- (comp_best_perm mine mine2 h P ND Hh).
+    rewrite <- (fr_keep_spec mine h W1 D1 Hh). exact K.
   - assert (Hh1 : In h mine) by (apply (Permutation_in _ (Permutation_sym P)); exact Hh). split; [exact Hh1|].
-    rewrite (fr_keep_guarded mine h W1 D1 G1 Hh1). rewrite (comp_best_perm mine mine2 h P ND Hh1).
-    rewrite <- (fr_keep_guarded mine2 h W2 D2 G2 Hh). exact K.
+    rewrite (fr_keep_spec mine h W1 D1 Hh1). rewrite (comp_best_perm mine mine2 h P ND Hh1).
+    rewrite <- (fr_keep_spec mine2 h W2 D2 Hh). exact K.
 Qed.
 
-(* ---------- the refutations: a chain of five hits v4-v0-v2-v1-v3 given in the order v0 v3 v1 v4 v2
-   builds the groups {v0,v4,v2,v1} and {v3,v1,v2,v0}; none is the component, v4 and v3 both survive *)
+(* ---------- the witness of the repaired finding FC13a: a chain of five hits v4-v0-v2-v1-v3 given in
+   the order v0 v3 v1 v4 v2.  Before the repair the loop built the groups {v0,v4,v2,v1} and
+   {v3,v1,v2,v0}, never united them, and v4, v3 both survived; now a pair touching two groups unites them *)
 Definition fr_w0 := mkFH 0 0 70 170 20 0.
 Definition fr_w1 := mkFH 1 1 210 310 60 1.
 Definition fr_w2 := mkFH 2 2 140 240 40 2.
@@ -2354,39 +2479,27 @@ Definition fr_w4 := mkFH 4 4 0 100 200 4.
 Definition fr_wit := [fr_w0; fr_w3; fr_w1; fr_w4; fr_w2].
 Definition fr_wit_sorted := [fr_w4; fr_w0; fr_w2; fr_w1; fr_w3].
 
-Lemma fr_components_refuted : exists eqg results mine,
-  fwf mine = true /\ distinct_scores mine = true /\ competing eqg mine = true /\
-  exists s' mine', fr_cds eqg (Ok (results, [])) mine = (Ok s', mine') /\
-    exists x y, In x mine' /\ In y mine' /\ x <> y /\ fconn mine x y.
+Lemma fr_witness_perm : Permutation fr_wit fr_wit_sorted.
 Proof.
-  exists [0; 1; 2; 3; 4], fr_wit, fr_wit. split; [reflexivity|]. split; [reflexivity|]. split; [reflexivity|].
-  eexists. exists [fr_w3; fr_w4]. split; [vm_compute; reflexivity|].
-  exists fr_w3, fr_w4. split; [left; reflexivity|]. split; [right; left; reflexivity|]. split; [discriminate|].
-  apply (fcomp_spec fr_wit fr_w3).
-  - apply fr_znodup_NoDup. reflexivity.
-  - right. left. reflexivity.
-  - vm_compute. tauto.
+  unfold fr_wit, fr_wit_sorted.
+  apply NoDup_Permutation.
+  - repeat constructor; cbn; intros H; repeat (destruct H as [H|H]; [discriminate|]); exact H.
+  - repeat constructor; cbn; intros H; repeat (destruct H as [H|H]; [discriminate|]); exact H.
+  - intros x. cbn. tauto.
 Qed.
 
-Lemma fr_order_refuted : exists eqg results mine mine2,
-  Permutation mine mine2 /\ fwf mine = true /\ distinct_scores mine = true /\ competing eqg mine = true /\
-  exists s1 m1 s2 m2, fr_cds eqg (Ok (results, [])) mine = (Ok s1, m1) /\
-                      fr_cds eqg (Ok (results, [])) mine2 = (Ok s2, m2) /\
-                      exists h, In h m1 /\ ~ In h m2.
+(* one group (the component), one survivor (its best hit v4), for the witness order and the positional one *)
+Lemma fr_witness_repaired :
+  fwf fr_wit = true /\ distinct_scores fr_wit = true /\ competing [0; 1; 2; 3; 4] fr_wit = true /\
+  (exists g, overlapping_groups fr_wit = Ok [g] /\ length g = 5%nat) /\
+  (exists rem, fr_cds [0; 1; 2; 3; 4] (Ok (fr_wit, [])) fr_wit = (Ok ([fr_w4], rem), [fr_w4])) /\
+  (exists rem, fr_cds [0; 1; 2; 3; 4] (Ok (fr_wit, [])) fr_wit_sorted = (Ok ([fr_w4], rem), [fr_w4])).
 Proof.
-  exists [0; 1; 2; 3; 4], fr_wit, fr_wit, fr_wit_sorted. split.
-  { unfold fr_wit, fr_wit_sorted.
-    apply NoDup_Permutation.
-    - repeat constructor; cbn; intros H; repeat (destruct H as [H|H]; [discriminate|]); exact H.
-    - repeat constructor; cbn; intros H; repeat (destruct H as [H|H]; [discriminate|]); exact H.
-    - intros x. cbn. tauto. }
-  split; [reflexivity|]. split; [reflexivity|]. split; [reflexivity|].
-  eexists. exists [fr_w3; fr_w4]. eexists. exists [fr_w4]. split; [vm_compute; reflexivity|]. split; [vm_compute; reflexivity|].
-  exists fr_w3. split; [left; reflexivity|]. intros [H|[]]. discriminate.
+  split; [reflexivity|]. split; [reflexivity|]. split; [reflexivity|]. split; [|split].
+  - eexists. split; vm_compute; reflexivity.
+  - eexists. vm_compute. reflexivity.
+  - eexists. vm_compute. reflexivity.
 Qed.
-
-Lemma fr_guard_rejects_witness : exists gs, overlapping_groups fr_wit = Ok gs /\ groups_guard gs = false.
-Proof. eexists. split; vm_compute; reflexivity. Qed.
 
 (* ---------- hmmer.remove_overlapping rank order; best score / least e-value of merges *)
 
@@ -3127,11 +3240,15 @@ Proof.
 Qed.
 
 Lemma C13_filter_components_proof cds g h : fwf cds = true -> In g (fr_groups cds) ->
-  fclosed (fr_groups cds) g = true -> In h g -> forall x, In x g <-> fconn cds h x.
+  In h g -> forall x, In x g <-> fconn cds h x.
 Proof.
-  intros H Hg Hc Hh. destruct (fr_fwf_spec cds H) as [Hp ND]. destruct (fr_groups_spec cds ND) as [Inv Cov].
-  exact (fr_closed_component cds _ g h ND Inv Cov Hg Hc Hh).
+  intros H Hg Hh. destruct (fr_fwf_spec cds H) as [Hp ND]. destruct (fr_groups_spec cds ND) as [Inv Cov].
+  exact (fr_group_component cds _ g h ND Inv (fr_groups_disjoint cds ND) Cov Hg Hh).
 Qed.
+
+Lemma C13_filter_groups_disjoint_proof cds g1 g2 : fwf cds = true -> In g1 (fr_groups cds) -> In g2 (fr_groups cds) ->
+  g1 = g2 \/ forall x, In x g1 -> In x g2 -> False.
+Proof. intros H. destruct (fr_fwf_spec cds H) as [_ ND]. exact (fr_groups_disjoint cds ND g1 g2). Qed.
 
 Lemma C13_filter_keep_iff mine r : fwf mine = true -> In r mine ->
   (fr_keep mine r = false <-> exists g b, In g (fr_groups mine) /\ In r g /\ best_of g = Some b /\ b <> r).
